@@ -16,7 +16,8 @@ META = {
             'type with nothing left over, also with a tail appended. For the types the streaming machine supports (bytes, text, int, null) the same bytes are fed to the real '
             'tnet_machine through a chainable source in every two-way split, byte-at-a-time and random k-way splits, followed by arbitrary data: the extracted payload must '
             'equal what parse() returns, source.sent must equal the message length and the remainder must be untouched; every strict prefix must yield no message. '
-            'Sequences of messages are also received through the real tnet_from() loop over a socketpair with seeded segmentation.',
+            'Sequences of messages are also received through the real tnet_from() loop over a socketpair with seeded segmentation, and through tnet_from with the receive function '
+            'replaced by a feeder that delivers exactly chosen chunks (every two-way split, byte-at-a-time) of streams whose messages are separated by ignored newlines and whose payloads contain newlines themselves.',
     'note': 'Tuples are not generated (they dump as lists by design); dict keys are str (non-ASCII keys are counted as refused, as the module documents); trusts the 30-line typed-equality oracle.',
 }
 LEVEL = META['level']
@@ -25,7 +26,7 @@ RULE = ('a case = one value round-tripped, or one (message, tail, chunking) fed 
 ASSUMPTIONS = ['streaming machine judged only for the types it implements (, $ # ~); list/dict/bool/float messages are counted as unsupported']
 REQUIRED = ['roundtrip:int', 'roundtrip:float', 'roundtrip:bool', 'roundtrip:none', 'roundtrip:bytes', 'roundtrip:str', 'roundtrip:list', 'roundtrip:dict',
             'roundtrip:depth>=4', 'roundtrip:with-tail', 'machine:runs', 'machine:two-way-splits', 'machine:bytewise', 'machine:tail-untouched',
-            'machine:prefix-yields-nothing', 'machine:back-to-back', 'socket:sessions', 'socket:messages', 'roundtrip:payload-looks-like-framing', 'roundtrip:large']
+            'machine:prefix-yields-nothing', 'machine:back-to-back', 'socket:sessions', 'socket:messages', 'from:two-way-splits', 'from:bytewise', 'from:payload-contains-separator', 'roundtrip:payload-looks-like-framing', 'roundtrip:large']
 TIMEOUT = {'quick': 300, 'thorough': 1800}
 SOFT = {'quick': 30, 'thorough': 420}
 
@@ -292,6 +293,44 @@ class Mon:
                           {'stream': stream[:3000], 'chunks': [len(c) for c in chunks], 'ignore': bool(ignore)})
 
 
+    def from_case(self, values, stream, chunks, ignore, label):
+        """tnet_from with exactly these chunks as successive receives (the module's network.recv replaced by a feeder): the
+        segmentation is then exact, which a socketpair cannot guarantee."""
+        import types
+        ctx = self.ctx
+        feed = list(chunks)
+        saved = self.tnet.network
+        self.tnet.network = types.SimpleNamespace(recv=lambda conn, timeout=None, **kw: feed.pop(0) if feed else b'')
+        got = []
+        wit = {'stream': stream[:3000], 'chunks': [len(c) for c in chunks][:100], 'ignore': bool(ignore), 'chunking': label, 'tnet_from': True}
+        try:
+            for msg in self.tnet.tnet_from(None, ('feeder', 0), timeout=5.0, ignore=ignore):
+                got.append(msg)
+                if len(got) > len(values) + 3:
+                    break
+        except Exception as exc:
+            ctx.violation('tnet-from-raises', 'tnet_from (%s, %d chunks) raised %r after %d messages' % (label, len(chunks), exc, len(got)), wit)
+            return
+        finally:
+            self.tnet.network = saved
+        ctx.count('from:runs')
+        ctx.count('from:' + label)
+        ctx.case(('from', stream, tuple(len(c) for c in chunks), bool(ignore)))
+        if len(got) != len(values) or not all(teq(g, v) for g, v in zip(got, values)):
+            ctx.violation('tnet-from-messages-differ', '%s: sent %s, tnet_from yielded %s' % (label, describe(values, 300), describe(got, 300)), wit)
+
+    def from_stream(self, values, rng, ignore):
+        encs = [self.tns.dump(v) for v in values]
+        sep = rng.choice([b'\n', b'\n\n', b'']) if ignore else b''
+        stream = sep.join(encs) + (sep if rng.random() < 0.7 else b'')
+        if any(isinstance(v, (bytes, str)) and (b'\n' in (v if isinstance(v, bytes) else v.encode())) for v in values) and ignore:
+            self.ctx.count('from:payload-contains-separator')
+        self.from_case(values, stream, [stream], ignore, 'single-chunk')
+        for cut in range(1, len(stream)):
+            self.from_case(values, stream, [stream[:cut], stream[cut:]], ignore, 'two-way-splits')
+        self.from_case(values, stream, [stream[j:j + 1] for j in range(len(stream))], ignore, 'bytewise')
+
+
 def supported(v):
     return v is None or type(v) in (bytes, str, int)
 
@@ -365,12 +404,29 @@ def run(ctx):
         mon.back_to_back(vals, rng)
         if i % 3 == 0:
             mon.socket_session(vals, rng, b'\n' if rng.random() < 0.5 else None)
+        if i % 2 == 0:
+            # exact segmentation; payloads that contain the separator symbol themselves
+            short = [v[:12] if isinstance(v, (bytes, str)) else v for v in vals[:3]]
+            if rng.random() < 0.7:
+                short.insert(rng.randrange(len(short) + 1), rng.choice([b'\n', b'a\nb', 'x\n', b'\n\n1', '\ny']))
+            mon.from_stream(short, rng, b'\n' if rng.random() < 0.7 else None)
 
 
 def replay(ctx, witness):
     # witnesses carry the produced bytes; re-run the deciding comparison on them
     mon = Mon(ctx)
-    if 'chunking' in witness:
+    if witness.get('tnet_from'):
+        stream, ignore = witness['stream'], (b'\n' if witness['ignore'] else None)
+        values, rest = [], stream
+        while rest.lstrip(b'\n' if ignore else b''):
+            v, rest = mon.tns.parse(rest.lstrip(b'\n') if ignore else rest)
+            values.append(v)
+        chunks, pos = [], 0
+        for n in witness['chunks']:
+            chunks.append(stream[pos:pos + n])
+            pos += n
+        mon.from_case(values, stream, chunks, ignore, witness['chunking'])
+    elif 'chunking' in witness:
         enc, tail = witness['message'], witness['tail']
         v, _ = mon.tns.parse(enc)
         whole = enc + tail
